@@ -37,6 +37,8 @@ type Spec struct {
 	// Batch, when set, replaces Sc: many scenarios explored on their default schedule only, in one job
 	Batch []sched.Scenario
 	Name  string
+	// DevBound > 0: deviation bounding (see sched.Options)
+	DevBound int
 	// RaceBound is the preemption bound used when the race detector monitors the scenario (it costs ~8x per execution)
 	RaceBound int
 	// RaceOnly: explored only by the race-monitor binary; NoRace: skipped by it (too slow / not about races)
@@ -201,11 +203,12 @@ func RunJob(id, tier string, specIdx, shard, shards, slot int, raceLog, out stri
 	world.Init()
 	sp := Registry[id].Scenarios(tier)[specIdx]
 	p := run.NewPart(id, "job", tier)
-	opt := sched.Options{Bound: sp.Bound, HBCache: sp.HBCache, MaxExec: sp.MaxExec, Deadline: run.NewDeadlineAt(deadlineUnix), RaceLog: raceLog, Property: id, Shard: shard, Shards: shards, Slot: slot}
+	opt := sched.Options{Bound: sp.Bound, HBCache: sp.HBCache, DevBound: sp.DevBound, MaxExec: sp.MaxExec, Deadline: run.NewDeadlineAt(deadlineUnix), RaceLog: raceLog, Property: id, Shard: shard, Shards: shards, Slot: slot}
 	if raceLog != "" {
 		// the race monitor costs ~8x per execution: it watches the bounded schedules only
 		opt.HBCache = false
 		opt.Bound = sp.RaceBound
+		opt.DevBound = 0
 	}
 	name := sp.Sc.Name
 	var notes []string
@@ -276,8 +279,12 @@ func RunCheck(p *run.Part, id, tier string, raceLog string, journalDir string) {
 	}
 	defer os.RemoveAll(tmp)
 	var jobs []job
+	only := os.Getenv("VERIF_ONLY") // debugging aid: restrict to scenarios whose name contains this
 	for i, sp := range specs {
 		if raceLog != "" && sp.NoRace {
+			continue
+		}
+		if only != "" && !strings.Contains(sp.Sc.Name+sp.Name, only) {
 			continue
 		}
 		n := sp.Shards
